@@ -2528,7 +2528,6 @@ def extend(
 
         n_nops_new = len(newpulse.n_opers)
         control_matrix = np.zeros((n_nops_new, (d_per_qubit**N)**2, len(omega)), dtype=complex)
-        filter_function = np.zeros((n_nops_new, n_nops_new, len(omega)), dtype=complex)
         n_ops_counter = 0
         for ind, pulse in zip(idx, pulses):
             n_nops = len(pulse.n_opers)
@@ -2539,16 +2538,12 @@ def extend(
             n_oper_idx = slice(n_ops_counter, n_ops_counter + n_nops)
             n_ops_counter += n_nops
 
-            # Need to scale the control matrix and filter function
+            # Need to scale the control matrix
             scaling_factor = d_per_qubit**(N - len(ind))
 
             control_matrix[n_oper_idx, basis_idx] = pulse.get_control_matrix(
                 omega, show_progressbar=show_progressbar
             )*np.sqrt(scaling_factor)
-
-            filter_function[n_oper_idx, n_oper_idx] = pulse.get_filter_function(
-                omega, show_progressbar=show_progressbar
-            )*scaling_factor
 
         if additional_noise_Hamiltonian is not None:
             newpulse_n_oper_inds = util.get_indices_from_identifiers(
@@ -2561,9 +2556,9 @@ def extend(
                 cache_intermediates=False
             )
 
-            filter_function[n_ops_counter:, n_ops_counter:] = numeric.calculate_filter_function(
-                control_matrix[n_ops_counter:]
-            )
+        # The complete matrix of filter functions, including the cross-correlations between noise
+        # operators of different pulses, follows from the assembled control matrix
+        filter_function = numeric.calculate_filter_function(control_matrix)
 
         newpulse.cache_total_phases(omega)
         newpulse.total_propagator_liouville = liouville_representation(newpulse.total_propagator,
